@@ -769,6 +769,10 @@ fn exec_call_inner(ctx: &mut Ctx, idx: usize, c: &Value, keep: &mut Option<Owned
                 names.sort();
                 if *bname == "root" {
                     names.retain(|n| !n.chars().all(|c| c.is_ascii_digit()) || n == "1");
+                    // magic-links of another process (which the caller may not be allowed to read)
+                    for sub in ["1/exe", "1/cwd", "1/root", "1/ns/mnt", "1/status"] {
+                        names.push(sub.to_string());
+                    }
                 } else {
                     for sub in ["fd/0", "fd/1", "fd/2", "ns/mnt", "ns/pid", "attr/current", "task"] {
                         names.push(sub.to_string());
